@@ -124,7 +124,7 @@ def evaluate(case: dict) -> list[Violation]:
 
 
 def shards(tier: str, seed: int) -> list[dict]:
-    n_sh, per = (16, 100) if tier == "quick" else (48, 1200)
+    n_sh, per = (16, 100) if tier == "quick" else (48, 600)
     return [{"seed": seed * 1000 + i, "n": per} for i in range(n_sh)]
 
 
